@@ -26,20 +26,23 @@ def build(repo):
     g = Gen('u_xyb')
     g.add(preamble.read('exact.rs')); g.add(preamble.fx('Fx', 'f32')); g.add(BARE_LEMMAS); g.add(SPEC)
     src = RustSrc(os.path.join(repo, REL))
+    # every top-level f32 / [f32; N] constant of the file is extracted (the named ones are required, others may have been introduced)
+    SC = list(SCALARS) + [n for n in re.findall(r'(?m)^const (\w+): f32 =', src.text) if n not in SCALARS]
+    AR = list(ARRAYS) + [n for n in re.findall(r'(?m)^const (\w+): \[f32; \d+\] =', src.text) if n not in ARRAYS]
     def fxify(t):
         t = re.sub(r'\bf32\b', 'Fx', t)
-        for n in SCALARS + ARRAYS:
+        for n in SC + AR:
             t = re.sub(r'\b%s\b(?!\s*[:(])' % n, n + '()', t)
         return preamble.lit_rewrite(t)
     # ---- constants -> functions
-    for n in SCALARS:
+    for n in SC:
         txt = src.get(src.find('const', n))
         m = re.match(r'const (\w+): f32 = (.*);\s*$', txt, re.S)
         if not m: raise AnchorLost(f'const {n} changed shape')
         body = fxify(m.group(2))
         g.add(f'pub open spec fn s_{n}() -> real {{ {spec_of(body)} }}\nfn {n}() -> (r: Fx) ensures r.val() == s_{n}() {{ {body} }}\n')
         g.under_contract.append({'fn': f'const {n}', 'src': f'{REL}:{src.line_of(src.find("const", n)[0])}', 'requires': [], 'ensures': [f'value == s_{n}() (the literal expression read exactly)']})
-    for n in ARRAYS:
+    for n in AR:
         txt = src.get(src.find('const', n))
         m = re.match(r'const (\w+): \[f32; (\d)\] = \[(.*)\];\s*$', txt, re.S)
         if not m: raise AnchorLost(f'const {n} changed shape')
@@ -275,7 +278,7 @@ def spec_of(expr):
         sn = str(n).rjust(k + 1, '0')
         return f'{sn[:-k] if k else sn}.{sn[-k:] if k else "0"}real'
     e = re.sub(r'Fx::lit\((\d+), (\d+)\)', dec, expr)
-    e = re.sub(r'\b(K_\w+)\(\)', r's_\1()', e)
+    e = re.sub(r'\b([A-Z][A-Z0-9_]+)\(\)', r's_\1()', e)      # a constant defined from other constants
     return e
 
 LEMMAS = r'''
